@@ -126,7 +126,9 @@ def draw_script(ch, sc):
             continue
         if k == 11:
             # the application sends the SAME bytearray object again
-            prev = [c for c in sent[who] if 0 < c[1] <= 2 ** 14 + 1]
+            # (a tiny recordSize turns a big chunk into thousands of records)
+            prev = [c for c in sent[who] if 0 < c[1] <= 2 ** 14 + 1 and
+                    (rsize[who] >= 64 or c[1] <= 4 * rsize[who])]
             if not prev or wrote["c"] + wrote["s"] > total_cap:
                 continue
             off, n = prev[ch.draw(len(prev), "op.again")]
@@ -143,6 +145,10 @@ def draw_script(ch, sc):
             # tiny recordSize with big payloads = thousands of records
             if rsize[who] < 64:
                 n = min(n, 300)
+                # ... each padded to the full record by the 'max' callback
+                if sc["cset" if who == "c" else "sset"].get(
+                        "padding_cb") == "max":
+                    n = min(n, 4 * rsize[who])
             off = max([c[0] + c[1] for c in sent[who]] or [0])
             out.append([who, "write", off, n])
             sent[who].append((off, n))
@@ -391,7 +397,8 @@ def run(job, streams=None):
         for w in "cs":
             lim = limit_in_force(sc, w)
             peer_pipe = pair.link.c2s if w == "c" else pair.link.s2c
-            res = tap[w].check(suite, ver, lim, peer_pipe, probes)
+            res = tap[w].check(suite, ver, lim, peer_pipe, probes,
+                               allow_tail=(st != "idle"))
             for rule, sig, msg in res:
                 v(rule, sig + "|" + w, msg)
         # probes
